@@ -8,4 +8,5 @@ func setChooser(m interface{}, c func(keys []string) []int)      {}
 func setCloneChooser(m interface{}, c func(keys []string) []int) {}
 func HookCalls() uint64                                     { return 0 }
 func SetPointFn(f func(label string))                       {}
+func SetBlockFn(f func(label string))                       {}
 func KeyHookCalls() uint64                                  { return 0 }
